@@ -92,6 +92,14 @@ fn canon(s: &Snap) -> Canon {
     Canon { items, ints }
 }
 
+fn ints_hash(xs: &[i32]) -> u64 {
+    let mut h = FNV_OFFSET;
+    for x in xs {
+        h = fnv_bytes(h, &x.to_le_bytes());
+    }
+    h
+}
+
 struct Sent {
     snap: Snap,
     canon: Canon,
@@ -112,11 +120,19 @@ struct R {
     last_hint: String,
     /// a message with an altered checksum field was delivered in this session
     garbled: bool,
+    /// reference bookkeeping of which ticks each side must still hold (the mechanism the property
+    /// names: the sender diffs against the last acknowledged snapshot if it still has it, the
+    /// receiver applies a delta to the stored snapshot with exactly the named base tick)
+    client_has: std::collections::BTreeSet<i32>,
+    sender_has: std::collections::BTreeSet<i32>,
+    /// what `delta_tick()` must be: the last acknowledgement the sender could honour
+    sender_base: Option<i32>,
+    ack_result: Option<(i32, bool)>,
 }
 
 impl R {
     fn new() -> R {
-        R { sender: Storage::new(), client: Manager::new(), msgs: vec![], acks: vec![], sent: BTreeMap::new(), last_tick: None, mixed: false, serials: BTreeMap::new(), last_hint: String::new(), garbled: false }
+        R { sender: Storage::new(), client: Manager::new(), msgs: vec![], acks: vec![], sent: BTreeMap::new(), last_tick: None, mixed: false, serials: BTreeMap::new(), last_hint: String::new(), garbled: false, client_has: Default::default(), sender_has: Default::default(), sender_base: None, ack_result: None }
     }
 
     fn ack_str(&self) -> String {
@@ -138,6 +154,12 @@ impl R {
                 // snapshot is simply dropped
                 return format!("builder-err {:?}", e);
             }
+        }
+        if api_ok && self.sender.delta_tick() != self.sender_base {
+            o.fail(
+                "C13/sender-base-not-last-acknowledged",
+                format!("tick {}: delta_tick() = {:?}, last honoured acknowledgement {:?}", tick, self.sender.delta_tick(), self.sender_base),
+            );
         }
         let snap = builder.finish();
         let crc = snap.crc();
@@ -169,6 +191,7 @@ impl R {
             parts += 1;
         }
         self.last_tick = Some(tick);
+        self.sender_has.insert(tick);
         // hint for the Lean driver: serial numbers by content
         if self.serials.is_empty() {
             self.serials.insert(canon(&Snap::empty()).ints, 0);
@@ -180,10 +203,10 @@ impl R {
         } else {
             0
         };
-        self.last_hint = format!("ok {} {} {} {} {}", serial, crc, c.items.len(), base_serial, to_hex(&buf));
+        self.last_hint = format!("ok {} {} {} {} {} {}", serial, crc, c.items.len(), ints_hash(&c.ints), base_serial, to_hex(&buf));
         self.sent.insert(tick, Sent { snap: keep, canon: c });
         o.count(&format!("parts-{:02}", parts.min(33)));
-        format!("sent {} base={} len={} parts={} crc={} first={}", tick, delta_tick, buf.len(), parts, crc, first)
+        format!("sent {} base={} len={} parts={} crc={} first={} h={}", tick, delta_tick, buf.len(), parts, crc, first, fnv_bytes(FNV_OFFSET, &buf))
     }
 
     fn deliver(&mut self, i: usize, crc_delta: i32, o: &mut Oracle) -> String {
@@ -213,6 +236,7 @@ impl R {
         let line;
         let accepted: Option<Canon>;
         let is_err;
+        let mut err_kind: Option<manager::Error> = None;
         match res {
             Ok(None) => {
                 line = "ok none".to_string();
@@ -221,7 +245,7 @@ impl R {
             }
             Ok(Some(s)) => {
                 let c = canon(s);
-                line = format!("ok snap tick={} crc={} items={}", tick, s.crc(), c.items.len());
+                line = format!("ok snap tick={} crc={} items={} sh={}", tick, s.crc(), c.items.len(), ints_hash(&c.ints));
                 accepted = Some(c);
                 is_err = false;
             }
@@ -229,9 +253,58 @@ impl R {
                 line = format!("err {:?}", e);
                 accepted = None;
                 is_err = true;
+                err_kind = Some(e);
             }
         }
         let after = self.client.ack_tick();
+        // ---- oracle: which base ticks the client must still know
+        let base = match &m {
+            OMsg::Empty { tick, dt } | OMsg::Single { tick, dt, .. } | OMsg::Snap { tick, dt, .. } => tick.wrapping_sub(*dt),
+        };
+        let drain = |set: &mut std::collections::BTreeSet<i32>, b: i32| {
+            if b >= 0 {
+                let keep = set.split_off(&b);
+                *set = keep;
+            }
+        };
+        match (&accepted, &err_kind) {
+            (Some(_), _) => {
+                if base >= 0 && !self.client_has.contains(&base) {
+                    o.fail(
+                        "C13/delta-applied-to-a-base-that-should-be-gone",
+                        format!("msg tick {} base {}: accepted, but the client should no longer hold tick {}", tick, base, base),
+                    );
+                }
+                drain(&mut self.client_has, base);
+                self.client_has.insert(tick);
+                if self.client_has.len() > 100 {
+                    let oldest = *self.client_has.iter().next().unwrap();
+                    self.client_has.remove(&oldest);
+                }
+            }
+            (None, Some(manager::Error::Storage(storage::Error::UnknownSnap))) => {
+                if after.is_some() {
+                    o.fail("C13/ack-not-cleared-on-unknown-base-or-bad-checksum", format!("msg tick {} base {}: UnknownSnap, ack_tick {:?}", tick, base, after));
+                }
+                if base >= 0 && self.client_has.contains(&base) {
+                    o.fail(
+                        "C13/stored-base-reported-unknown",
+                        format!("msg tick {} base {}: the client accepted tick {} and nothing allowed it to drop it", tick, base, base),
+                    );
+                }
+                drain(&mut self.client_has, base);
+            }
+            (None, Some(manager::Error::Storage(storage::Error::InvalidCrc))) => {
+                if after.is_some() {
+                    o.fail("C13/ack-not-cleared-on-unknown-base-or-bad-checksum", format!("msg tick {}: InvalidCrc, ack_tick {:?}", tick, after));
+                }
+                drain(&mut self.client_has, base);
+            }
+            (None, Some(manager::Error::Storage(storage::Error::Unpack(_)))) => {
+                drain(&mut self.client_has, base);
+            }
+            _ => {}
+        }
         // ---- oracle
         if let Some(c) = &accepted {
             o.count("accepted");
@@ -276,9 +349,34 @@ impl R {
         format!("{} ack={} w={}", line, self.ack_str(), list_str(w))
     }
 
+    /// the sender honours an acknowledgement exactly when it still holds that snapshot; it holds
+    /// every snapshot not older than the last acknowledgement it processed
+    fn check_ack(&mut self, o: &mut Oracle) {
+        if let Some((v, ok)) = self.ack_result.take() {
+            if v < 0 {
+                self.sender_base = None;
+                if !ok {
+                    o.fail("C13/sender-refused-negative-acknowledgement", format!("ack {}", v));
+                }
+                return;
+            }
+            let keep = self.sender_has.split_off(&v);
+            self.sender_has = keep;
+            let expect = self.sender_has.contains(&v);
+            if ok != expect {
+                o.fail(
+                    "C13/sender-forgot-or-invented-acknowledged-snapshot",
+                    format!("ack {}: set_delta_tick says {}, the sender {} that snapshot", v, if ok { "ok" } else { "UnknownSnap" }, if expect { "must still hold" } else { "cannot hold" }),
+                );
+            }
+            self.sender_base = if ok { Some(v) } else { None };
+        }
+    }
+
     fn deliver_ack(&mut self, v: i32) -> String {
         let mut ws: Vec<storage::WeirdNegativeDeltaTick> = vec![];
         let r = self.sender.set_delta_tick(&mut ws, v);
+        self.ack_result = Some((v, r.is_ok()));
         let dt = match self.sender.delta_tick() {
             None => "none".to_string(),
             Some(t) => t.to_string(),
@@ -319,6 +417,10 @@ impl Runner for R {
                             // denote items of two UUID types with different sizes
                             let tag = if mixed && msg.contains("item sizes can't be mismatched") {
                                 "C13/sender-panics-on-renumbered-uuid-type"
+                            } else if msg.contains("CapacityError") {
+                                // the server glue's `unwrap` on its 64 KiB buffer (application code,
+                                // recorded as an observation, `Oversize` in the theorems)
+                                "C13-note/glue-buffer-overflow"
                             } else {
                                 "C13/sender-panics"
                             };
@@ -359,17 +461,24 @@ impl Runner for R {
             ["da", j] => match j.parse::<usize>().ok() {
                 Some(j) if j < self.acks.len() => {
                     let v = self.acks[j];
-                    self.deliver_ack(v)
+                    let line = self.deliver_ack(v);
+                    self.check_ack(o);
+                    line
                 }
                 _ => "bad-index".to_string(),
             },
             ["ra", v] => match v.parse::<i32>().ok() {
-                Some(v) => self.deliver_ack(v),
+                Some(v) => {
+                    let line = self.deliver_ack(v);
+                    self.check_ack(o);
+                    line
+                }
                 None => "bad-args".to_string(),
             },
             // manual aid for writing corpus files (not used in generated requests)
             ["hint"] => self.last_hint.clone(),
             ["creset"] => {
+                self.client_has.clear();
                 self.client.reset();
                 "ok".to_string()
             }
@@ -500,7 +609,11 @@ struct Sim {
     o: Oracle,
 }
 
-fn gen_session(rng: &mut Rng, w: &mut dyn Write, steps: usize, style: u64, mixed: bool) {
+pub fn new_runner() -> Box<dyn Runner> {
+    Box::new(R::new())
+}
+
+pub fn gen_session(rng: &mut Rng, w: &mut dyn Write, steps: usize, style: u64, mixed: bool, wipe: bool) {
     let mut sim = Sim { r: R::new(), o: Oracle::new() };
     writeln!(w, "{}", if mixed { "new mixed-uuid-sizes" } else { "new" }).unwrap();
     sim.r.mixed = mixed;
@@ -517,13 +630,14 @@ fn gen_session(rng: &mut Rng, w: &mut dyn Write, steps: usize, style: u64, mixed
     let mut backlog: Vec<usize> = vec![];
     let mut ack_backlog: Vec<usize> = vec![];
     let mut sent_ticks: Vec<i64> = vec![];
-    let loss = [0u64, 1, 3, 6][(style % 4) as usize]; // out of 10
+    // (the "silence" style below delivers every snapshot, to reach the eviction limit)
+    let loss = if style % 10 == 9 { 0 } else { [0u64, 1, 3, 6][(style % 4) as usize] }; // out of 10
     let reorder = style / 4 % 2 == 1;
     let garble = style % 5 == 3;
     // style "sumfix": after the first snapshot only checksum- and key-preserving changes, with
     // frequent client resets, so that only the exact-base-tick rule stands between a stale delta
     // and a wrong snapshot
-    let sumfix = style % 7 == 2;
+    let sumfix = style % 7 == 2 && style % 10 != 9;
     // style "silence": the acknowledgement path goes dead after a few steps and comes back late, so
     // that the receiver piles up more than MAX_STORED_SNAPSHOT snapshots and evicts the sender's base
     let silence = style % 10 == 9;
@@ -622,7 +736,14 @@ fn gen_session(rng: &mut Rng, w: &mut dyn Write, steps: usize, style: u64, mixed
             writeln!(w, "da {}", j).unwrap();
             sim.r.run(&["da", &j.to_string()], &mut sim.o);
         }
-        if rng.chance(1, 25) {
+        if wipe && !acks_dead && rng.chance(1, 8) {
+            // an acknowledgement newer than everything the sender has: the storage is emptied and
+            // the next builder comes from the free list
+            let v = (tick + rng.range(1, 3)).min(i32::MAX as i64);
+            writeln!(w, "ra {}", v).unwrap();
+            sim.r.run(&["ra", &v.to_string()], &mut sim.o);
+        }
+        if rng.chance(1, 25) && !acks_dead {
             // an acknowledgement for something else entirely
             let v = match rng.below(4) {
                 0 => -1,
@@ -649,14 +770,14 @@ impl Domain for D {
     fn gen(&self, tier: &str, seed: u64, w: &mut dyn Write) {
         let thorough = tier == "thorough";
         let mut rng = Rng::new(seed ^ 0x736d6772);
-        let sessions = if thorough { 800 } else { 120 };
+        let sessions = if thorough { 800 } else { 90 };
         for s in 0..sessions {
-            let steps = if s % 10 == 9 { 170 } else { rng.range(5, 40) as usize };
-            gen_session(&mut rng, w, steps, s as u64, false);
+            let steps = if s % 10 == 9 { 130 } else { rng.range(5, 40) as usize };
+            gen_session(&mut rng, w, steps, s as u64, false, s % 6 == 5);
         }
         // UUID types of different sizes: reaches D25 (open finding)
         for s in 0..(if thorough { 60 } else { 8 }) {
-            gen_session(&mut rng, w, 30, s as u64, true);
+            gen_session(&mut rng, w, 30, s as u64, true, s % 3 == 2);
         }
     }
 }
